@@ -341,3 +341,66 @@ def capture_bait(prog, r):
       rules.append(rule)
     out.append(dict(d, rules=rules))
   return G.p_program(out) if changed else None
+
+
+def siblings_share_local_names(prog, r):
+  """Pure renaming: the variables local to sibling combines / negations of one rule get the same names
+  (their scopes are disjoint, so nothing changes)."""
+  changed = [False]
+  out = []
+  for d in prog:
+    rules = []
+    for rule in d['rules']:
+      body = rule.get('body')
+      if body is None:
+        rules.append(rule)
+        continue
+      scopes = []
+
+      def find(x, inside):
+        if isinstance(x, tuple):
+          if x and x[0] in ('combine', 'not') and not inside:
+            scopes.append(x)
+            return
+          for y in x:
+            find(y, inside)
+        elif isinstance(x, list):
+          for y in x:
+            find(y, inside)
+      find((rule['head'], body), False)
+      if len(scopes) < 2:
+        rules.append(rule)
+        continue
+      allv = _vars_of((rule['head'], body), set())
+      outside = set()
+
+      def outer(x):
+        if isinstance(x, tuple):
+          if x and x[0] == 'var':
+            outside.add(x[1])
+          elif x and x[0] in ('combine', 'not'):
+            return
+          else:
+            for y in x:
+              outer(y)
+        elif isinstance(x, list):
+          for y in x:
+            outer(y)
+      outer((rule['head'], body))
+      inner_sets = [_vars_of(sc, set()) - outside for sc in scopes]
+      # a local must belong to exactly one scope
+      locs = [sorted(v for v in s0 if sum(v in t for t in inner_sets) == 1) for s0 in inner_sets]
+      k = min(len(l) for l in locs)
+      if k == 0:
+        rules.append(rule)
+        continue
+      fresh = [n for n in ['lv', 'lw', 'lu'] if n not in allv][:k]
+      mapping = {}
+      for l in locs:
+        for i, n in enumerate(fresh):
+          mapping[l[i]] = n
+      changed[0] = True
+      f = lambda y: ('var', mapping.get(y[1], y[1])) if y and y[0] == 'var' else y
+      rules.append(dict(rule, head=[(fl, _walk(hv, f)) for fl, hv in rule['head']], body=_walk(body, f)))
+    out.append(dict(d, rules=rules))
+  return G.p_program(out) if changed[0] else None
